@@ -54,6 +54,7 @@ pub fn decode_fuzz(target: &str, bytes: &[u8]) -> Option<(&'static str, serde_js
         "waker_ops" => ("waker-histories", j(d::<c19::Case>(bytes))?),
         "layout_views" => ("views", j(d::<c16::Case>(bytes))?),
         "int_result" => ("encode-decode", j(d::<c13::Case>(bytes))?),
+        "int_result_gen" => ("generated", j(d::<c13::wrapped::WCase>(bytes))?),
         "lifecycle" => ("boxes", j(d::<boxes::Case>(bytes))?),
         _ => return None,
     })
